@@ -41,7 +41,7 @@ def arg_short(a):
 def arg_valname(a):
     return a["valname"] if a.get("valname") is not None else a["field"].upper()
 
-INT_TYS = ["i8", "u16", "i16", "u32", "i32", "u64", "i64", "u128", "i128"]
+INT_TYS = ["i8", "u16", "i16", "u32", "i32", "u64", "i64", "u128", "i128", "usize", "isize"]   # usize / isize: 64 bits on the host the harness runs on
 RUST_TY = {"str": "&'a str", "u8": "u8", "bool": "bool", "char": "char"}
 RUST_TY.update({t: t for t in INT_TYS})
 
@@ -299,11 +299,11 @@ def ser_value(v):
 TY_CODE = {"str": "S", "u8": "U", "bool": "B", "char": "C"}
 TY_DEFAULT = {"str": ("s", ""), "u8": ("n", 0), "bool": ("b", False), "char": ("c", "\0")}
 for _t in INT_TYS:
-    TY_CODE[_t] = "I" + ("s" if _t[0] == "i" else "u") + _t[1:]
+    TY_CODE[_t] = ("Z" + ("s" if _t[0] == "i" else "u")) if _t.endswith("size") else ("I" + ("s" if _t[0] == "i" else "u") + _t[1:])
     TY_DEFAULT[_t] = ("i", 0)
 
 def int_range(ty):
-    bits = int(ty[1:])
+    bits = 64 if ty.endswith("size") else int(ty[1:])
     return (-(1 << (bits - 1)), (1 << (bits - 1)) - 1) if ty[0] == "i" else (0, (1 << bits) - 1)
 
 def doc_short_long(doc):
